@@ -4,17 +4,19 @@ import "time"
 
 func init() {
 	reg(&prop{
-		id: "C05", pkg: "c05", prep: prepStdh("san"),
-		rule: "metamorphic, same compiled code (C regenerated from the tree, ASan+UBSan): every std io_transformer, image_decoder and token_decoder decodes an input one-shot (everything available, closed source, ample destination) and again under a drawn partition of source and destination; output bytes / decoded pixels and frame configs / canonical token stream (filler dropped, same-value chain neighbours merged), final status and - unless the final status is an error - consumed bytes must be equal. Inputs: real files from test/data, files from independent Go encoders, 0-2 structure-aware corruptions. Partitions: 1-byte pieces, fixed pieces, EVERY single split point of every corpus file <= 200 bytes (6000 thorough) and every destination window size 1..40 (TestAllSplits), random multi-splits incl. empty pieces, exact-size heap source buffers, growing and fresh exact-size destination windows (history dropped to dst_history_retain_length), token buffers of 1..256. Driver: on $short read supply the next piece, on $short write the next window (doubling it when a window produced no progress, up to 128 KiB), on other suspensions call again. Non-trivial = chunked run that resumed after >= 1 suspension and got past the first header; distinct by (kind, input, partition).",
+		id: "C05", pkg: "c05", prep: chain(prepStdh("san"), prepE2),
+		rule: "metamorphic, same compiled code (C regenerated from the tree, ASan+UBSan): every std io_transformer, image_decoder and token_decoder decodes an input one-shot (everything available, closed source, ample destination) and again under a drawn partition of source and destination; output bytes / decoded pixels and frame configs / canonical token stream (filler dropped, same-value chain neighbours merged), final status and - unless the final status is an error - consumed bytes must be equal. Inputs: real files from test/data, files from independent Go encoders, 0-2 structure-aware corruptions. Partitions: 1-byte pieces, fixed pieces, EVERY single split point of every corpus file <= 200 bytes (6000 thorough) and every destination window size 1..40 (TestAllSplits), random multi-splits incl. empty pieces, exact-size heap source buffers, growing and fresh exact-size destination windows (history dropped to dst_history_retain_length), token buffers of 1..256. Driver: on $short read supply the next piece, on $short write the next window (doubling it when a window produced no progress, up to 128 KiB), on other suspensions call again. Generated programs (job generated-programs): coroutines from the availability-oblivious subset of the wgen generator (length() only guards a fast path whose else branch is the equal checked slow path; =? only in the retry idiom; multi-byte reads, nested private coroutines with arguments, locals live across suspensions), compiled by the tree's wuffs-c with ASan+UBSan, run one-shot and under 7 fixed partitions plus every single source split point (<= 24) of a drawn opcode stream; output, final status, all public getters and consumed bytes compared. Non-trivial = chunked run that resumed after >= 1 suspension and got past the first header; distinct by (kind, input, partition).",
 		assumptions:   []string{"a decoder may demand a minimum of contiguous destination space (std/lzma: 274 bytes); windows that produce no progress are doubled rather than judged", "token streams are compared after canonicalisation because the partition of bytes into tokens is documented as buffer dependent", "known finding S1 (lzma family, partial retention of reported output across $short read) is excluded by construction and replayed separately"},
 		minNontrivial: 300,
 		quick: tier{jobs: []job{
 			{name: "std-chunking", run: "^TestProp$", shards: 16, checks: 100, timeout: 25 * time.Minute},
 			{name: "all-splits", run: "^TestAllSplits$", shards: 16, checks: 1, timeout: 25 * time.Minute},
+			{name: "generated-programs", pkg: "e2", run: "^TestPropC05Gen$", shards: 8, checks: 2, timeout: 30 * time.Minute},
 		}},
 		thorough: tier{jobs: []job{
 			{name: "std-chunking", run: "^TestProp$", shards: 16, checks: 8000, timeout: 120 * time.Minute},
 			{name: "all-splits", run: "^TestAllSplits$", shards: 16, checks: 1, timeout: 120 * time.Minute},
+			{name: "generated-programs", pkg: "e2", run: "^TestPropC05Gen$", shards: 16, checks: 60, timeout: 180 * time.Minute},
 		}},
 	})
 }
